@@ -7,5 +7,14 @@ namespace Expr
 /-- `type(o)(*operands)`: how a pass rebuilds a node of class `k` (auxiliary data `aux`) from new operands -/
 abbrev Rb := Op → List Nat → List Expr → Option Expr
 
+/-- the node as it stands (no constructor simplification) -/
+def plainRb : Rb := fun k aux args => some (.op k aux args)
+
+/-- `isinstance(e, ConstantValue)` (Zero, scalar literals, Identity, PermutationSymbol) -/
+def isConstantValue : Expr → Bool
+  | .int _ | .real _ _ | .cplx _ _ _ _ | .zero _ _ => true
+  | .term d => d.cls == "Identity" || d.cls == "PermutationSymbol"
+  | _ => false
+
 end Expr
 end UflVerif
